@@ -121,6 +121,25 @@ def graph_check(ctx, name, nb):
     ctx.sample({"model": "SamplerJit", "config": name, "sites": NS, "vacancy": vac, "states": res.distinct,
                 "edges": len(edges), "batches": bts[:3], "values": s.values})
     MC = s.MC
+    # independence: a compiled sampler made from an already STARTED reference sampler is a separate object -- moving
+    # the compiled one must leave the reference (occupation, counts, energy, allowed transitions) untouched
+    for src, dst, lab in edges:
+        aname, args = tlc.parse_action_label(lab)
+        if aname != "JUpdate":
+            continue
+        sn = nodes[src]
+        MC.start(np.array(sn["occ"], dtype=int))
+        Jx = make_jit(MC)
+        before = (samplers.project(MC), float(MC.E()))
+        Jx.update(args[0] - 1, args[1] - 1)
+        Jx.start(np.array(nodes[dst]["occ"], dtype=int))
+        after = (samplers.project(MC), float(MC.E()))
+        ctx.case((name, "independent", tuple(sn["occ"])), nontrivial=True)
+        if before != after:
+            ctx.violation("alias|%s" % name,
+                          "%s: moving the compiled sampler created from a started reference sampler changed the "
+                          "reference: %s -> %s" % (name, before, after), {"config": name, "occ": sn["occ"]})
+        break
     J = make_jit(MC)
     seen = set()
     for src, dst, lab in edges:
